@@ -260,6 +260,9 @@ func (x *fnv) applyContract(s *State, fc *FuncContract, declSig *types.Signature
 		x.bindParams(envPre, declSig, recv, args)
 		for _, cl := range fc.Modifies {
 			for _, tg := range envPre.evalModTargets(cl.Expr) {
+				if tg.fresh {
+					continue // the callee's own allocations do not exist yet: nothing of the caller's changes
+				}
 				x.havocTarget(s, tg, "call")
 			}
 		}
@@ -316,6 +319,7 @@ func (x *fnv) bindParams(env *specEnv, sig *types.Signature, recv *Value, args [
 // modTarget is one element of a modifies clause: all regions whose name has the given prefix, at
 // the cells selected by match.
 type modTarget struct {
+	fresh  bool // the `fresh()` target: objects allocated by the function itself
 	prefix string
 	match  func(ref, idx *Term) *Term
 	desc   string
